@@ -347,6 +347,9 @@ func checkC14(w *World, r *Report) {
 		r.Check(okO, "R14.5", "overrideInherited", ofd.Pos(), "status via getStatus, config via getConfig", "status/config are not derived through the checking accessors")
 	})
 
+	r.Rule("R14.7", "no stale inherited status: where a function overrides its inherited-status parameter with the node's own status statement, the bare parameter has no later use — everything beneath sees the derived status", 1)
+	r.guard("R14.7", func() { c14StaleStatus(w, r) })
+
 	r.Rule("R14.6", "deviate edits hit the statement they name: delete removes the child found by type and argument, replace substitutes by type after checking existence, add appends", 3)
 	r.guard("R14.6", func() {
 		dd := w.Method("compile", "deviateDelete", "propertyAction")
